@@ -26,7 +26,7 @@ class _RecCtx(Ctx):
 def make(families):
     def cases(tier, seed):
         for fam, (gen, _, _) in families.items():
-            if fam in ("f64", "life", "flags"):  # life/flags compare runs with each other, not with an oracle
+            if fam in ("f64", "life", "flags", "ls"):  # life/flags compare runs with each other, not with an oracle
                 continue
             allc = list(gen(tier, seed))
             if fam == "ord":
